@@ -47,6 +47,9 @@ const nilSort = "?nil"
 func (fx *FuncExec) typeFromString(s string, pkg *types.Package) (sortName string, t types.Type) {
 	s = strings.TrimSpace(s)
 	if a, ok := fx.ctx.spec.SortAlias[s]; ok {
+		if pp := fx.ctx.spec.SortAliasPkg[s]; pp != "" {
+			pkg = fx.ctx.pkgByPath(pp)
+		}
 		s = a
 	}
 	if strings.HasPrefix(s, "$") {
@@ -87,6 +90,9 @@ func (fx *FuncExec) typeFromString(s string, pkg *types.Package) (sortName strin
 func (fx *FuncExec) parseType(s string, pkg *types.Package) types.Type {
 	s = strings.TrimSpace(s)
 	if a, ok := fx.ctx.spec.SortAlias[s]; ok {
+		if pp := fx.ctx.spec.SortAliasPkg[s]; pp != "" {
+			pkg = fx.ctx.pkgByPath(pp)
+		}
 		s = a
 	}
 	switch {
